@@ -23,12 +23,14 @@ def plan(ctx):
                     for pos in ((0,) if not thorough else (0, WB[be] - 1 if WB[be] > 1 else 0)):
                         obs.append(l2_ob(be, k, m, hd, order, ln=unit + 1, force=1, ct=2, dmg=mask, dmgpos=pos, uf=True, expect=exp, tag="dmg"))
             # re-sealed header field edits on one fragment
+            vals = {0: [n, n + 7, "0x80000000u"], 1: [9, 200], 2: [0, "BE_VERSION + 1"]}
             for field in (0, 1, 2):
-                valid = len(s) - 1
-                exp = 1 if valid >= k else -1
-                if field == 0:
-                    exp = min(exp, 0) if exp == 1 else exp   # an out-of-range index may also be refused outright by the partitioning step
-                obs.append(l2_ob(be, k, m, hd, order, ln=unit + 1, force=1, ct=2, hdrdmg=(0, field), uf=True, expect=exp if field else (0 if valid >= k else -1), tag="hdr"))
+                for val in (vals[field] if thorough else vals[field][:2]):
+                    valid = len(s) - 1
+                    exp = 1 if valid >= k else -1
+                    if field == 0 and exp == 1:
+                        exp = 0          # an out-of-range index may also be refused outright
+                    obs.append(l2_ob(be, k, m, hd, order, ln=unit + 1, force=1, ct=2, hdrdmg=(0, field, val), uf=True, expect=exp, tag="hdr"))
     return {"obs": obs,
             "assumptions": ["payload damage: CRCs abstracted to distinct constants per (fragment, region) - the outcome depends only on which checksums are equal - with the damaged payload checksumming to a different constant under both flavours (that the real CRCs detect the damage is C10); header edits: CRCs uninterpreted and re-sealed",
                             "out-of-range index edits: an outright error is accepted as well as decoding from the remaining valid fragments",
